@@ -36,6 +36,7 @@ impl Decode for $T {
     open spec fn accepts(b: Seq<u8>) -> Option<nat> { if b.len() >= $N { Some($Nnat) } else { None } }
     open spec fn dec_bytes(v: &Self) -> Seq<u8> { le($VAL(*v), $N) }
     open spec fn need_depth(b: Seq<u8>) -> nat { 0 }
+    proof fn law_bound(b: Seq<u8>) {}
     //@const codec | impl Decode for $T | TYPE_INFO
     //@fn prim.$T.decode :: codec | impl Decode for $T | decode
     //@ sub `<$T>::from_le_bytes(buf)` `$T_from_le_bytes(buf)` R14
@@ -67,6 +68,7 @@ impl Decode for $T {
     open spec fn accepts(b: Seq<u8>) -> Option<nat> { if b.len() >= 1 { Some(1nat) } else { None } }
     open spec fn dec_bytes(v: &Self) -> Seq<u8> { le($VAL(*v), 1) }
     open spec fn need_depth(b: Seq<u8>) -> nat { 0 }
+    proof fn law_bound(b: Seq<u8>) {}
     //@const codec | impl Decode for $T | TYPE_INFO
     //@fn prim.$T.decode :: codec | impl Decode for $T | decode
     //@ at before `Ok(input.read_byte()? as $T)`
@@ -97,6 +99,7 @@ impl Decode for bool {
     open spec fn accepts(b: Seq<u8>) -> Option<nat> { if b.len() >= 1 && (b[0] == 0 || b[0] == 1) { Some(1nat) } else { None } }
     open spec fn dec_bytes(v: &Self) -> Seq<u8> { if *v { seq![1u8] } else { seq![0u8] } }
     open spec fn need_depth(b: Seq<u8>) -> nat { 0 }
+    proof fn law_bound(b: Seq<u8>) {}
     //@fn prim.bool.decode :: codec | impl Decode for bool | decode
     //@ at before `match byte {`
     //@+ proof { broadcast use sl::take_skip; assert(forall|s: Seq<u8>| s.len() >= 1 ==> #[trigger] s.take(1) =~= seq![s[0]]); }
